@@ -517,6 +517,17 @@ class ProgGen(object):
         self.counter += 1
         return '%s%d' % (prefix, self.counter)
 
+    def result_variable(self, ty):
+        '''
+        the variable a selection / creation stores into: a new one, or (30 %) a visible one of that type -
+        possibly declared in an enclosing block and possibly holding an empty handle at that moment
+        '''
+        same = [n for n, t in self.vars_of(lambda t: t == ty)]
+        if same and self.rng.random() < 0.3:
+            self.stats['stored-into-existing-variable'] = self.stats.get('stored-into-existing-variable', 0) + 1
+            return self.rng.choice(same)
+        return self.fresh('s' if ty[0] == 'set' else 'i')
+
     def vars_of(self, pred):
         out = []
         seen = set()
@@ -712,7 +723,7 @@ class ProgGen(object):
             return assign(attr(var(n), r.choice(at)), self.expr(ty, 2)), []
         if k == 'create':
             kind = r.choice(self.schema.kinds())
-            name = self.fresh('i') if r.random() < 0.9 else None
+            name = self.result_variable(('inst', kind)) if r.random() < 0.9 else None
             return create(name, kind), ([(name, ('inst', kind))] if name else [])
         if k == 'delete':
             src = self.inst_expr()
@@ -725,8 +736,8 @@ class ProgGen(object):
             where = None
             if 'where' in f and r.random() < 0.5:
                 where = self.where_expr(kind)
-            name = self.fresh('s' if card == 'many' else 'i')
             ty = ('set', kind) if card == 'many' else ('inst', kind)
+            name = self.result_variable(ty)
             return select_from(card, name, kind, where), [(name, ty)]
         if k == 'select_related':
             src = self.inst_expr()
@@ -755,8 +766,10 @@ class ProgGen(object):
             where = None
             if 'where' in f and r.random() < (0.7 if wide else 0.4):
                 where = self.where_expr(end)
-            name = self.fresh('s' if card == 'many' else 'i')
             ty = ('set', end) if card == 'many' else ('inst', end)
+            name = self.result_variable(ty)
+            if name == n:
+                name = self.fresh('s' if card == 'many' else 'i')
             return select_related(card, name, var(n), steps, where), [(name, ty)]
         if k in ('relate', 'unrelate'):
             src = self.inst_expr()
